@@ -18,6 +18,7 @@ import (
 	"path/filepath"
 	"runtime"
 	"runtime/debug"
+	"runtime/metrics"
 	"sort"
 	"strconv"
 	"strings"
@@ -77,6 +78,7 @@ func worker() {
 	out := bufio.NewWriter(os.Stdout)
 	enc := json.NewEncoder(out)
 	rl := h.NewRaceLog(os.Getenv("SIM_RACE_LOG"))
+	go memoryWatchdog()
 	h.Warmup()
 	for {
 		line, err := in.ReadBytes('\n')
@@ -119,6 +121,25 @@ func worker() {
 		}
 		if err != nil {
 			return
+		}
+	}
+}
+
+// memoryWatchdog ends the worker when the heap explodes (a render whose output doubles on every lap of a cycle
+// would otherwise take the machine down; the sandbox has no memory limit). The supervisor attributes the death
+// to the announced run and classifies it from the marker line.
+func memoryWatchdog() {
+	limit := uint64(512 << 20)
+	if simrt.RaceEnabled {
+		limit = 2 << 30
+	}
+	samples := []metrics.Sample{{Name: "/memory/classes/heap/objects:bytes"}}
+	for {
+		time.Sleep(40 * time.Millisecond)
+		metrics.Read(samples)
+		if samples[0].Value.Kind() == metrics.KindUint64 && samples[0].Value.Uint64() > limit {
+			fmt.Fprintf(os.Stderr, "simcheck: memory budget exceeded (%d MiB live heap): unbounded growth\n", samples[0].Value.Uint64()>>20)
+			os.Exit(3)
 		}
 	}
 }
